@@ -77,7 +77,8 @@ class MechStream:
 def mems_blocks(rng, l, dual_hdr=False):
     T = l.T
     bl = []
-    toff = 0
+    # block time offsets over the whole range of the field (16-bit offsets: also the upper half, 32768 us and more)
+    toff = rng.choice([0, 0, 250, 30000, 32760, 40000, 65500]) if T['sizeof_toff'] == 2 else rng.choice([0, 0, 120, 250])
     for b in range(l.nblk):
         chans = []
         for c in range(l.nchan):
